@@ -155,6 +155,10 @@ func init() {
 			off := a[1].(*Term)
 			return e.ret(st, e.tt.UF("mem_"+name, 8, off))
 		},
+		"IsConst": func(e *Engine, st *State, fn *ssa.Function, a []Value, ins ssa.Instruction) []*State {
+			t, ok := a[0].(*Term)
+			return e.ret(st, e.tt.Bool(ok && t.IsConst()))
+		},
 		"Symbolic": func(e *Engine, st *State, fn *ssa.Function, a []Value, ins ssa.Instruction) []*State {
 			return e.ret(st, e.tt.True)
 		},
@@ -754,6 +758,11 @@ func errorsJoin(e *Engine, st *State, fn *ssa.Function, a []Value, ins ssa.Instr
 
 // crcModel: concrete bytes -> real CRC; symbolic bytes -> congruent uninterpreted fold.
 func (e *Engine) crcModel(st *State, name string, seed *Term, data Slice, real func(seed uint32, b []byte) uint32) Value {
+	return e.crcModelX(st, name, seed, data, real, false)
+}
+
+// crcModelX: raw = the function is the bare table update without pre/post inversion.
+func (e *Engine) crcModelX(st *State, name string, seed *Term, data Slice, real func(seed uint32, b []byte) uint32, raw bool) Value {
 	if data.Obj == nil {
 		if seed.IsConst() {
 			return e.tt.Const(32, uint64(real(uint32(seed.Val), nil)))
@@ -791,11 +800,14 @@ func (e *Engine) crcModel(st *State, name string, seed *Term, data Slice, real f
 	switch name {
 	case "ieee":
 		ctab = crcIEEE
-	case "castagnoli":
+	case "castagnoli", "castagnoli_raw":
 		ctab = crcCastagnoli
 	}
 	if ctab != nil && e.crcExactMode && nsym <= e.crcExactLimit() && (data.Len.IsConst() || n <= 256) {
 		e.Models["crc32("+name+") evaluated exactly (GF(2)-linear update with the real table)"] = true
+		if raw {
+			return e.crcExact(ctab, seed, bs, data.Len)
+		}
 		h := e.crcExact(ctab, e.tt.Not(seed), bs, data.Len)
 		return e.tt.Not(h)
 	}
@@ -990,6 +1002,25 @@ func init() {
 		}
 		if conc {
 			return e.callBody(st, fn, a, nil, ins)
+		}
+		// exact when no unit can be a surrogate: one rune per unit
+		exact := true
+		units := make([]*Term, n)
+		for i := 0; i < n; i++ {
+			t, ok := e.loadPtr(st, e.sliceElemPtr(s, e.c64(i))).(*Term)
+			if !ok || t.Hi >= 0xD800 {
+				exact = false
+				break
+			}
+			units[i] = t
+		}
+		if exact {
+			o := e.newArray(st, types.Typ[types.Int32], n, "utf16dec")
+			ag := e.ownBoxOf(st, o).V.(*Agg)
+			for i := 0; i < n; i++ {
+				ag.Elems[i] = e.tt.ZExt(units[i], 32)
+			}
+			return e.ret(st, Slice{Obj: o, Off: e.c64(0), Len: s.Len, Cap: e.c64(n)})
 		}
 		e.Models["unicode/utf16.Decode on symbolic units: result over-approximated by arbitrary runes"] = true
 		o := e.newArray(st, types.Typ[types.Int32], n, "utf16dec")
@@ -1210,5 +1241,79 @@ func init() {
 		}
 		so := e.strObj(st, src)
 		return e.ret(st, Str{Obj: so.Obj, Base: so.Base, Off: so.Off, Len: nl})
+	}
+}
+
+func init() {
+	intrinsics["os.Setenv"] = func(e *Engine, st *State, fn *ssa.Function, a []Value, ins ssa.Instruction) []*State {
+		k := e.mustStr(st, a[0])
+		if e.env == nil {
+			e.env = map[string]Value{}
+		}
+		e.env[k] = a[1]
+		return e.ret(st, Iface{})
+	}
+	intrinsics["os.Unsetenv"] = func(e *Engine, st *State, fn *ssa.Function, a []Value, ins ssa.Instruction) []*State {
+		k := e.mustStr(st, a[0])
+		delete(e.env, k)
+		return e.ret(st, Iface{})
+	}
+}
+
+// ext4's own table-driven checksums: CRC32c(base, b) is the bare reflected Castagnoli update
+// (no inversion), CRC16 a plain table-driven CRC.
+func init() {
+	cast := crc32.MakeTable(crc32.Castagnoli)
+	intrinsics["github.com/diskfs/go-diskfs/filesystem/ext4/crc.CRC32c"] = func(e *Engine, st *State, fn *ssa.Function, a []Value, ins ssa.Instruction) []*State {
+		seed, ok1 := a[0].(*Term)
+		data, ok2 := a[1].(Slice)
+		if !ok1 || !ok2 {
+			return e.callBody(st, fn, a, nil, ins)
+		}
+		return e.ret(st, e.crcModelX(st, "castagnoli_raw", seed, data, func(s uint32, b []byte) uint32 { return ^crc32.Update(^s, cast, b) }, true))
+	}
+	intrinsics["github.com/diskfs/go-diskfs/filesystem/ext4/crc.CRC16"] = func(e *Engine, st *State, fn *ssa.Function, a []Value, ins ssa.Instruction) []*State {
+		seed, ok1 := a[0].(*Term)
+		data, ok2 := a[1].(Slice)
+		if !ok1 || !ok2 || data.Obj == nil {
+			return e.callBody(st, fn, a, nil, ins)
+		}
+		n := e.sliceCapN(st, data)
+		bs := make([]*Term, n)
+		conc := seed.IsConst() && data.Len.IsConst()
+		for i := 0; i < n; i++ {
+			t, ok := e.loadPtr(st, e.sliceElemPtr(data, e.c64(i))).(*Term)
+			if !ok {
+				return e.callBody(st, fn, a, nil, ins)
+			}
+			bs[i] = t
+			if !t.IsConst() {
+				conc = false
+			}
+		}
+		if conc {
+			return e.callBody(st, fn, a, nil, ins)
+		}
+		e.Models["ext4 crc.CRC16 as congruent uninterpreted function over symbolic bytes"] = true
+		h := seed
+		for i := 0; i < n; i += 8 {
+			var chunk *Term
+			for j := 0; j < 8; j++ {
+				b := e.tt.Const(8, 0)
+				if i+j < n {
+					b = bs[i+j]
+					if !data.Len.IsConst() {
+						b = e.tt.Ite(e.tt.ULt(e.c64(i+j), data.Len), b, e.tt.Const(8, 0))
+					}
+				}
+				if chunk == nil {
+					chunk = b
+				} else {
+					chunk = e.tt.Concat(chunk, b)
+				}
+			}
+			h = e.tt.UF("crc16_step", 16, h, chunk)
+		}
+		return e.ret(st, e.tt.UF("crc16_fin", 16, h, data.Len))
 	}
 }
